@@ -84,12 +84,13 @@ type SimCell struct {
 }
 
 type simscreen struct {
-	physw int
-	physh int
-	fini  bool
-	style Style
-	evch  chan Event
-	quit  chan struct{}
+	physw    int
+	physh    int
+	fini     bool
+	finiOnce sync.Once
+	style    Style
+	evch     chan Event
+	quit     chan struct{}
 
 	front     []SimCell
 	back      CellBuffer
@@ -143,17 +144,18 @@ func (s *simscreen) Init() error {
 }
 
 func (s *simscreen) Fini() {
+	// First of all release whoever waits for room in the event queue:
+	// SetSize, Show and Sync do so holding the lock that is taken below.
+	if s.quit != nil {
+		s.finiOnce.Do(func() { close(s.quit) })
+	}
 	s.Lock()
-	again := s.fini
 	s.fini = true
 	s.back.Resize(0, 0)
 	s.physw = 0
 	s.physh = 0
 	s.front = nil
 	s.Unlock()
-	if s.quit != nil && !again {
-		close(s.quit)
-	}
 }
 
 func (s *simscreen) SetStyle(style Style) {
